@@ -33,6 +33,9 @@ def to_py(v):
         return float(v["f"]) if v.get("f") else 1.5
     if t == "range":
         return range(*v["r"])
+    if t == "dict":
+        l = v.get("l", [])
+        return {to_py(l[i]): to_py(l[i + 1]) for i in range(0, len(l) - 1, 2)}
     if t == "iter":
         # iterator views of a string / bytes: lists of 1-character strings or of ints
         b = bytes.fromhex(v.get("s", ""))
@@ -219,7 +222,9 @@ def evaluate(c):
                 args = [it(args[0])]
         if name == "extend" and len(args) == 1:
             args = [it(args[0])]
-        r = getattr(x, name)(*args)
+        kw = c.get("kw") or []
+        kwargs = {to_py(kw[i]): to_py(kw[i + 1]) for i in range(0, len(kw) - 1, 2)}
+        r = getattr(x, name)(*args, **kwargs)
     elif op == "builtin":
         name = c["name"]
         if name == "zip":
